@@ -108,6 +108,8 @@ def gen_plan(seed, tier):
                               (1, W.OFPP_FLOOD), (1, W.OFPP_CONTROLLER),
                               (1, W.OFPP_ALL), (1, W.OFPP_IN_PORT),
                               (1, nports + 1)])
+      if Rng(mix(seed, "sflags", len(steps))).chance(0.2):
+        st["sflags"] = r.pick([1, 1, 2, 0xffff])
     elif k == "queue_config":
       st["port"] = r.wpick([(3, r.randint(1, nports)), (1, nports + 2)])
     elif k == "vendor":
@@ -550,15 +552,24 @@ def _subsumes(d, e):
 
 def _stats(world, model, st, xid, E, nports):
   t = st["stype"]
+  sflags = st.get("sflags", 0)
+
+  def send(raw):
+    # (the request's flags field is reserved in 1.0: whatever stands there,
+    # the reply is the reply)
+    if sflags and len(raw) >= 12:
+      raw = raw[:10] + struct.pack("!H", sflags) + raw[12:]
+      world.sim.probes["stats_request_with_reserved_flags"] += 1
+    world.send(raw)
   if t == "desc":
-    world.send(W.enc_stats_request(xid, W.ST_DESC))
+    send(W.enc_stats_request(xid, W.ST_DESC))
     E("stats", xid, stype=W.ST_DESC)
   elif t in ("flow", "aggregate"):
     sm = _match_alphabet(st.get("sm", 0), nports)
     so = st.get("sout", W.OFPP_NONE)
     raw = W.enc_flow_stats_request(xid, sm, st["table"], out_port=so,
                                    aggregate=(t == "aggregate"))
-    world.send(raw)
+    send(raw)
     flows = dict(model["flows"]) if st["table"] in (0, 0xff) else {}
     csm = dict(W.canon_match(sm))
     flows = {k: v for k, v in flows.items()
@@ -574,12 +585,12 @@ def _stats(world, model, st, xid, E, nports):
       # single reply (of that stats type) or error
       E("any", xid, types=(W.STATS_REPLY,), req=raw)
   elif t == "table":
-    world.send(W.enc_stats_request(xid, W.ST_TABLE))
+    send(W.enc_stats_request(xid, W.ST_TABLE))
     E("stats", xid, stype=W.ST_TABLE, active=len(model["flows"]),
       lookups=model["lookups"], kf="C13-table-stats-unencodable")
   elif t == "port":
     raw = W.enc_port_stats_request(xid, st["port"])
-    world.send(raw)
+    send(raw)
     if st["port"] == W.OFPP_NONE:
       E("stats", xid, stype=W.ST_PORT,
         rx={p: list(v) for p, v in model["rx"].items()})
@@ -591,13 +602,13 @@ def _stats(world, model, st, xid, E, nports):
         kf="C13-port-stats-unknown-port-silence")
   elif t == "queue":
     raw = W.enc_queue_stats_request(xid, st["port"], st["queue"])
-    world.send(raw)
+    send(raw)
     E("any", xid, types=(W.STATS_REPLY,), req=raw, stype=W.ST_QUEUE)
   elif t == "bad":
     raw = W.enc_stats_request(xid, st["code"],
                               b"\0\0\x23\x20" if st["code"] == 0xffff
                               else b"")
-    world.send(raw)
+    send(raw)
     if st["code"] == 0xffff:
       # vendor stats: BAD_VENDOR or BAD_STAT are both defensible
       E("error", xid, etype=W.ET_BAD_REQUEST,
@@ -762,6 +773,10 @@ def _satisfies(e, d):
     if d["stype"] != e["stype"]:
       return False, ("stype", "expected stats type %d got %d"
                      % (e["stype"], d["stype"]))
+    if d.get("flags"):
+      return False, ("flags", "the reply (all there is of it) carries flags "
+                     "%#x: more parts announced / undefined bits"
+                     % d["flags"])
     st = e["stype"]
     if st == W.ST_FLOW:
       got = {}
